@@ -4,7 +4,10 @@ package main
 //
 // One case line per (table, batch of requests):
 //
-//	E <k> {<pattern> <method>}*k <reg> <nn> {<name>}*nn <nreq> {<path> <method> <who> <any> {<value>}*nn}*nreq
+//	E <k> {<pattern> <method>}*k <reg> <nn> {<name>}*nn <nreq> {<raw> <path> <method> <who> <any> {<value>}*nn}*nreq
+//
+// <raw> = the percent-encoded request-target the request was read from with http.ReadRequest ("-": the request was built
+// directly from <path>); routing is specified on <path> = URL.Path whatever URL.RawPath is.
 //
 // reg = ok | rej<i> (Handle of route i panicked: the "rejected" outcome; nothing is served then).
 // who = r<i> (handler of route i ran, exactly once, and saw its own RouteInfo) | nr (the no-route handler, ditto)
@@ -16,6 +19,7 @@ package main
 // "//" runs are reachable.
 
 import (
+	"bufio"
 	"fmt"
 	"net/http"
 	"net/http/httptest"
@@ -26,13 +30,28 @@ import (
 	"sync"
 
 	"github.com/whoisnian/glb/httpd"
+	"os"
+	"sync/atomic"
+	"time"
 	"verifharness/hk"
 )
 
 func main() { hk.Main("C04", run) }
 
 type route struct{ pat, meth string }
-type request struct{ path, meth string }
+
+// raw != "": the request is read with http.ReadRequest from the request line "<meth> <raw> HTTP/1.1" exactly as net/http
+// does (url.ParseRequestURI), so URL.RawPath is set when raw is not the canonical encoding; path is then URL.Path.
+type request struct{ path, meth, raw string }
+
+// parsed: the request for a percent-encoded request-target, ok=false when net/http rejects the line
+func parsed(meth, raw string) (request, *http.Request, bool) {
+	r, err := http.ReadRequest(bufio.NewReader(strings.NewReader(meth + " " + raw + " HTTP/1.1\r\nHost: h\r\n\r\n")))
+	if err != nil {
+		return request{}, nil, false
+	}
+	return request{r.URL.Path, meth, raw}, r, true
+}
 
 type recorder struct {
 	calls int
@@ -132,6 +151,13 @@ func (t *tableRun) serve(q request, sb *strings.Builder) (who string) {
 	rec := t.rec
 	rec.calls, rec.who, rec.any, rec.vals = 0, "", "", rec.vals[:0]
 	r := &http.Request{Method: q.meth, URL: &url.URL{Path: q.path}, RequestURI: q.path, Header: http.Header{}}
+	if q.raw != "" {
+		_, pr, ok := parsed(q.meth, q.raw)
+		if !ok || pr.URL.Path != q.path {
+			panic("harness: request line no longer parses to the recorded path: " + q.raw)
+		}
+		r = pr
+	}
 	w := httptest.NewRecorder()
 	panicked := func() (p bool) {
 		defer func() {
@@ -152,6 +178,8 @@ func (t *tableRun) serve(q request, sb *strings.Builder) (who string) {
 	if len(vals) != len(t.names) { // handler did not run to completion
 		vals = make([]string, len(t.names))
 	}
+	sb.WriteByte(' ')
+	sb.WriteString(hk.Hxs(q.raw))
 	sb.WriteByte(' ')
 	sb.WriteString(hk.Hxs(q.path))
 	sb.WriteByte(' ')
@@ -272,7 +300,7 @@ func cross(paths, meths []string) []request {
 	var res []request
 	for _, p := range paths {
 		for _, m := range meths {
-			res = append(res, request{p, m})
+			res = append(res, request{p, m, ""})
 		}
 	}
 	return res
@@ -325,6 +353,9 @@ func routesOver(pats []string, meths []string) []route {
 }
 
 func run(e *hk.Env) error {
+	if os.Getenv("VERIF_SMOKE386") != "" {
+		return smoke386(e)
+	}
 	var total counters
 
 	// ---- 0. fixed tables: the documented precedence examples and the shapes ParseRequestURI never yields
@@ -456,6 +487,54 @@ func run(e *hk.Env) error {
 		e.Stats["three_route_sets_requests_each"] = len(reqs3b)
 	}
 
+	// ---- 3c. requests read from percent-encoded request lines (URL.RawPath != ""): routing is on URL.Path
+	{
+		encAlpha := []string{"a", "%61", "b", "a%2Fb", "%2f", "%3Ax", "%2A", ""}
+		encLen := 3
+		var reqsE []request
+		rawSet, skipped := 0, 0
+		for _, sq := range seqs(encAlpha, encLen) {
+			for _, m := range []string{"GET", "PUT"} {
+				q, pr, ok := parsed(m, "/"+strings.Join(sq, "/"))
+				if !ok {
+					skipped++
+					continue
+				}
+				if pr.URL.RawPath != "" {
+					rawSet++
+				}
+				reqsE = append(reqsE, q)
+			}
+		}
+		var tablesE [][]route
+		for _, r := range routesOver(patternsOver([]string{"a", "b", ":x", ":y", "*", ""}, 2), []string{"GET", "*"}) {
+			tablesE = append(tablesE, []route{r})
+		}
+		rE := routesOver(patternsOver([]string{"a", ":x", "*"}, 2), []string{"GET"})
+		for _, r1 := range rE {
+			for _, r2 := range rE {
+				tablesE = append(tablesE, []route{r1, r2})
+			}
+		}
+		tablesE = append(tablesE,
+			[]route{{"/files/:name", "GET"}, {"/files/:dir/:name", "GET"}},
+			[]route{{"/v1/ping", "GET"}, {"/v1/:x", "GET"}, {"/a/b", "GET"}, {"/:x", "GET"}},
+			[]route{{"/a/*", "GET"}, {"/a/b/:c", "GET"}, {"/ping", "GET"}})
+		for _, raw := range []string{"/files/a%2Fb", "/files/a%2fb", "/files/a/b", "/v1/%70ing", "/v1/ping", "/a%2Fb", "/a/b", "/a/%2A", "/a/b/%3Ac", "/%25",
+			"/a/b%2Fc%2Fd", "/%70ing", "/files/%2F", "/files/%", "/a/b%zz", "/files/a%2Fb?q=1"} {
+			if q, _, ok := parsed("GET", raw); ok {
+				reqsE = append(reqsE, q)
+			} else {
+				skipped++
+			}
+		}
+		parallelTables(e, tablesE, reqsE, &total)
+		e.Stats["encoded_request_line_tables"] = len(tablesE)
+		e.Stats["encoded_request_line_requests_each"] = len(reqsE)
+		e.Stats["encoded_request_lines_with_RawPath_set"] = rawSet
+		e.Stats["encoded_request_lines_rejected_by_net_http"] = skipped
+	}
+
 	// ---- 4. random tables and paths over arbitrary bytes
 	nRandom := 3000
 	if e.Thorough() {
@@ -550,7 +629,7 @@ func run(e *hk.Env) error {
 			if rr.Intn(10) == 0 {
 				m = []string{"", "BOGUS", "get"}[rr.Intn(3)]
 			}
-			qs = append(qs, request{p, m})
+			qs = append(qs, request{p, m, ""})
 		}
 		randReqs += len(qs)
 		runTable(e, t, qs, &total)
@@ -571,10 +650,69 @@ func run(e *hk.Env) error {
 
 	// a few samples for the evidence file
 	st := newTable(fixed[1])
-	for _, q := range []request{{"/a/b", "GET"}, {"/a/zz", "GET"}, {"/a/zz/t", "GET"}, {"/a/", "GET"}, {"/q", "GET"}} {
+	for _, q := range []request{{path: "/a/b", meth: "GET"}, {path: "/a/zz", meth: "GET"}, {path: "/a/zz/t", meth: "GET"}, {path: "/a/", meth: "GET"}, {path: "/q", meth: "GET"}} {
 		var sb strings.Builder
 		who := st.serve(q, &sb)
 		e.Sample("samples", map[string]any{"table": fixed[1], "path": q.path, "method": q.meth, "who": who, "any": st.rec.any, "names": st.names, "values": append([]string{}, st.rec.vals...)}, 5)
 	}
+	return nil
+}
+
+// smoke386: the short subset run by the GOARCH=386 binary (lib/httpd_static.py, thorough tier): one Mux, a few hundred
+// requests, several in flight; a panic escaping ServeHTTP on its own account is "VIOL panic-on-386 ...".
+func smoke386(e *hk.Env) error {
+	mux := httpd.NewMux()
+	var served, inFlight, maxInFlight atomic.Int64
+	gate := make(chan struct{})
+	h := func(s *httpd.Store) {
+		n := inFlight.Add(1)
+		for {
+			m := maxInFlight.Load()
+			if n <= m || maxInFlight.CompareAndSwap(m, n) {
+				break
+			}
+		}
+		_ = s.RouteParam("x") + s.RouteParamAny() + s.GetID()
+		<-gate // the first wave of requests is held in flight together
+		inFlight.Add(-1)
+		served.Add(1)
+	}
+	mux.Handle("/a/:x", "GET", h)
+	mux.Handle("/b/*", "*", h)
+	mux.HandleNoRoute(h)
+	var mu sync.Mutex
+	panics := 0
+	serve := func(p string) {
+		defer func() {
+			if r := recover(); r != nil {
+				mu.Lock()
+				if panics < 3 {
+					e.Case("VIOL", "panic-on-386", "ServeHTTP_panicked_on_GOARCH=386_for_path", hk.Hxs(p), strings.ReplaceAll(fmt.Sprint(r), " ", "_"))
+				}
+				panics++
+				mu.Unlock()
+			}
+		}()
+		mux.ServeHTTP(httptest.NewRecorder(), &http.Request{Method: "GET", URL: &url.URL{Path: p}, RequestURI: p, Header: http.Header{}, RemoteAddr: "10.0.0.1:1"})
+	}
+	var wg sync.WaitGroup
+	paths := []string{"/a/1", "/b/r/s", "/zz", "/", "", "/a/"}
+	for g := 0; g < 8; g++ {
+		wg.Add(1)
+		go func(g int) {
+			defer wg.Done()
+			for i := 0; i < 50; i++ {
+				serve(paths[(g+i)%len(paths)])
+			}
+		}(g)
+	}
+	for i := 0; i < 2000 && inFlight.Load() < 8 && panics == 0; i++ {
+		time.Sleep(time.Millisecond)
+	}
+	close(gate)
+	wg.Wait()
+	e.Case("SMOKE386", fmt.Sprintf("requests=%d served=%d max_in_flight=%d panics=%d", 400, served.Load(), maxInFlight.Load(), panics))
+	e.Stats["smoke386_requests"] = 400
+	e.Stats["smoke386_panics"] = panics
 	return nil
 }
